@@ -10,7 +10,7 @@ client handlers, wake-order policies; queue pops are observed through the harnes
 queue wrapper; logs validated by TLC (Discovery_Trace)."""
 import asyncio
 
-from .. import env, tlc
+from .. import env, tlc, kf
 from ..vloop import World
 from ..simnet import Network
 from ..sessions import QueueTap
@@ -22,6 +22,7 @@ CONSTANTS Spas = {{"s1", "s2", "s3", "s4", "s5", "s6"}}
           Initial = {initial}
           Timeout = {timeout}
           MaxArrivals = 100000
+          ListsAll = {listsall}
           Eps = 6
 CONSTRAINT Track
 POSTCONDITION Report
@@ -133,6 +134,29 @@ def scenario(rng, spec):
                       "timeout": _ms(GeckoConfig.DISCOVERY_TIMEOUT_IN_SECONDS)}}
 
 
+def scenario_sync(rng, spec):
+    """the blocking GeckoLocator on the stepped engine (syncdisc.SyncDiscovery); same log format"""
+    from ..syncdisc import SyncDiscovery
+    from geckolib.config import GeckoConfig
+    resp = []
+    for i, (token, name, plan) in enumerate(spec["responders"]):
+        ident = f"SPA{i:02}:0{i}:aa:bb:cc:{rng.randrange(10, 99)}".encode()
+        resp.append(Responder(token, ident, name, (f"10.0.1.{i + 1}", 10022), plan))
+    flt = spec["filter"]
+    kw = {}
+    if flt == "addr":
+        kw["static_ip"] = resp[0].addr[0]
+    elif flt == "absent":
+        kw["spa_to_find"] = "SPA-not-there"
+    elif flt != "none":
+        kw["spa_to_find"] = next(r for r in resp if r.token == flt).ident.decode("latin1")
+    ev = SyncDiscovery(resp, **kw).run()
+    return {"ev": ev, "filter": flt, "hd": 0, "late": 0, "stack": "sync",
+            "resp": {r.token: {"name": list(r.name.encode("latin1")), "ip": r.addr[0], "port": r.addr[1]} for r in resp},
+            "const": {"poll": 100, "initial": _ms(GeckoConfig.DISCOVERY_INITIAL_TIMEOUT_IN_SECONDS),
+                      "timeout": _ms(GeckoConfig.DISCOVERY_TIMEOUT_IN_SECONDS)}}
+
+
 def plans(rng):
     kind = rng.randrange(7)
     if kind == 0:
@@ -159,6 +183,12 @@ def run(ctx):
     for f in ("none", "addr", "a", "absent"):
         r = tlc.model_check("Discovery", f"Discovery_{f}.cfg", timeout=600, tag=f"Discovery-{f}")
         ctx.tlc_design(f"Discovery filter={f}: 3 spas, <=4 replies at any time, consumer/loop wake orders", r)
+    r = tlc.model_check("Discovery", "Discovery_sync_a.cfg", timeout=600, tag="Discovery-sync-a")
+    ctx.tlc_design("Discovery, blocking locator (lists every answering spa), identifier filter: timing and uniqueness properties", r)
+    r = tlc.model_check("Discovery", "Discovery_sync_a_ctl.cfg", timeout=600, tag="Discovery-sync-ctl", coverage=False)
+    ev.add_tlc("the same configuration against the stated property OnlyRequested (refuted: known finding D20)", r)
+    if "OnlyRequested" not in r.violated:
+        raise env.MachineryError("blocking-locator model unexpectedly satisfies OnlyRequested")
     logs = []
     n_sc = 120 if ctx.quick else 3000
     tokens = ["s1", "s2", "s3", "s4", "s5", "s6"]
@@ -191,24 +221,38 @@ def run(ctx):
                                 ("s1", [("s1", "wanted", lambda n: [2.5] if n == 0 else [])]),
                                 ("addr", [("s1", "addressed", lambda n: [0.3] if n == 1 else [])])):
             logs.append(scenario(rng, {"responders": responders, "filter": flt, "hd": 0, "rank": "stable", "late": late}))
+    # the blocking locator (same model, ListsAll = TRUE: it lists every answering spa)
+    for i in range(40 if ctx.quick else 1000):
+        k = rng.choice([0, 1, 1, 2, 3, 6]) if i % 10 else 2
+        responders = [(tokens[j], rng.choice(NAMES), plans(rng)) for j in range(k)]
+        flt = rng.choice(["none", "none", "addr", "absent"] + ([responders[rng.randrange(k)][0]] * 2 if k else []))
+        if flt == "addr" and not k:
+            flt = "none"
+        logs.append(scenario_sync(rng, {"responders": responders, "filter": flt}))
     groups = {}
     for lg in logs:
         c = lg["const"]
-        groups.setdefault((lg["filter"], c["poll"], c["initial"], c["timeout"]), []).append(lg)
+        groups.setdefault((lg["filter"], c["poll"], c["initial"], c["timeout"], lg.get("stack", "async")), []).append(lg)
     nontrivial = set()
-    for (flt, poll, initial, timeout), group in groups.items():
-        verdicts, _ = tlc.validate("Discovery_Trace", group, f"c15-{flt}",
-                                   CFG.format(flt=flt, poll=poll, initial=initial, timeout=timeout),
-                                   chunk=60, heap="1500m", jobs=8)
+    for (flt, poll, initial, timeout, stack), group in groups.items():
+        verdicts, _ = tlc.validate("Discovery_Trace", group, f"c15-{flt}-{stack}",
+                                   CFG.format(flt=flt, poll=poll, initial=initial, timeout=timeout,
+                                              listsall="TRUE" if (stack == "sync" and "KF_SyncListsAll" in kf.flags()) else "FALSE"),
+                                   chunk=60, heap="1500m", jobs=8, why_rejects=False)
         for lg, v in zip(group, verdicts):
             if len(lg["ev"]) > 1:
                 nontrivial.add((flt, tuple((e["k"], e.get("spa"), e["t"]) for e in lg["ev"])))
             if v["accepted"]:
                 ev.cov["traces_validated_against_impl"] += 1
+                if "KF:ListsAll" in (v["why"] or []):
+                    ctx.violation({"clause": "accepted-only-through-known-finding", "flag": "KF_SyncListsAll"},
+                                  {"filter": flt, "listed": lg["ev"][-1].get("spas"), "responders": lg["resp"]})
             else:
                 k = v["matched"]
                 e = lg["ev"][k] if k < len(lg["ev"]) else {"k": "end"}
                 clause = (v["why"] or [None])[0]
+                if clause == "KF:ListsAll":
+                    clause = None
                 if clause is None:
                     if e["k"] == "ret":
                         r_ = e
@@ -227,7 +271,7 @@ def run(ctx):
                         clause = "queue-order"
                     else:
                         clause = "reply-waited-too-long-at-queue-head"
-                ctx.violation({"clause": clause, "filter": "id" if flt.startswith("s") else flt},
+                ctx.violation({"clause": clause, "filter": "id" if flt.startswith("s") else flt, **({"stack": "sync"} if stack == "sync" else {})},
                               {"matched": k, "of": len(lg["ev"]), "event": e, "before": lg["ev"][max(0, k - 6):k],
                                "handler_delay_ms": lg["hd"], "responders": lg["resp"]})
     ev.cov["evaluations"] = sum(len(l["ev"]) for l in logs)
